@@ -66,6 +66,14 @@ DESCRIPTIONS.update({
  "C09|published-headers-rejected|ts|listed-twice-case-variant": "when a method re-declares a service-level header with different letter case, the OpenAPI document lists both spellings as separate header parameters; the TS server validates both declarations against the single (case-insensitive) HTTP header and rejects a request that follows the document",
 })
 
+DESCRIPTIONS.update({
+ "C01|call-failed|go>go|response-decode|ct=application/json|out=AnnDisc2": "message with two discriminated oneofs as JSON response: variants are decoded with encoding/json instead of protojson (same defect as AnnDisc)",
+ "C01|call-failed|go>go|body-parse|ct=application/json|hasbody|in=AnnDisc2": "message with two discriminated oneofs as JSON request: the Go server decodes variants with encoding/json and rejects a valid body (same defect as AnnDisc)",
+ "C01|rule-not-enforced|go>go|ct=application/json|in=AnnDisc2": "message with two discriminated oneofs as JSON request: mis-decoded variant escapes rule validation (same defect as AnnDisc)",
+ "C01|request-mismatch|go>go|ct=application/json|in=AnnDisc2|": "message with two discriminated oneofs as JSON request: variant content altered by the encoding/json round trip (same defect as AnnDisc)",
+ "C01|response-mismatch|go>go|ct=application/json|out=AnnDisc2|": "message with two discriminated oneofs as JSON response: variant content altered by the encoding/json round trip (same defect as AnnDisc)",
+})
+
 def describe(sig):
     best = None
     for k, v in DESCRIPTIONS.items():
